@@ -116,10 +116,12 @@ def body_lines(rnd, st, prefix, n):
                 out.append('    li %s, %s' % (progs.reg_txt(rnd, progs.creg(rnd)), nm))
         elif k < 0.90:
             out.append('    ' + rnd.choice(['bytes 1 2 3 4', 'shorts 0x1234 -2', 'dw 0xdeadbeef', 'string ab\\ncd  # not a comment',
-                                            'pack <I, 77', 'dh -1', 'ints 1 0x7fffffff']))
+                                            'pack <I, 77', 'dh -1', 'ints 1 0x7fffffff', 'string gr\u00fc\u00dfe \u2192 \u65e5\u672c',
+                                            'string \U0001f600 ok', 'string caf\u00e9 \\x41\\u00e9']))
             out.append('    align 4')
         elif k < 0.95:
-            out.append(rnd.choice(['', '   ', '# a comment line', '    # indented comment', '\t']))
+            out.append(rnd.choice(['', '   ', '# a comment line', '    # indented comment', '\t', '# Gr\u00f6\u00dfe \u2192 \u65e5\u672c\u8a9e',
+                                   '    addi x0, x0, 0   # \u00b5s \u2264 5']))
         else:
             out.append('    align %d' % rnd.choice([2, 4, 8, 16]))
     return out
@@ -797,7 +799,7 @@ def run(tier, replay):
         'absolute normalised paths to contents; exercised by the correspondence on real temporary directories)',
         'path strings with . and .. components, repeated and trailing slashes are INSIDE the model (FS.resolve walks the components '
         'the way the OS does on a filesystem without symbolic links); outside the model (counted as unsupported, still covered by '
-        'the oracle on the real code): symbolic links, a leading //, NUL in a path, non-ASCII file names or contents, include cycles '
+        'the oracle on the real code): symbolic links, a leading //, NUL in a path, non-ASCII file names, include cycles '
         '(the real code dies with RecursionError: counted, not flagged)',
         'the search order (-i directories in order, then the including file\'s directory) is the code\'s documented choice; '
         'the oracle splices with that order',
